@@ -512,14 +512,14 @@ def cc_malware_family(has_name: bool, fam: bool) -> bool:
     return got == (has_name or not fam)       # name is required for malware families
 
 
-def cc_email_message(multi: bool, has_body: bool, has_parts: bool, v21: bool) -> bool:
+def cc_email_message(multi: bool, has_body: bool, has_parts: bool, v21: bool, empty_body: bool = False) -> bool:
     """
     post: _
     """
     mod = stix2.v21 if v21 else stix2.v20
     inner = {"type": "email-message", "is_multipart": multi}
     if has_body:
-        inner["body"] = "b"
+        inner["body"] = "" if empty_body else "b"          # an empty body is still a body
     if has_parts:
         inner["body_multipart"] = [{"body": "x"}]
     got = _accepts(mk(mod.EmailMessage, inner))
@@ -527,6 +527,25 @@ def cc_email_message(multi: bool, has_body: bool, has_parts: bool, v21: bool) ->
     # body MUST NOT be used if is_multipart is true; body_multipart MUST NOT be used if is_multipart is false
     spec = not (multi and has_body) and not ((not multi) and has_parts)
     return got == spec
+
+
+SOCK_VALS = [1, 0, -5, True, False, 1.0, "1", None, [1]]
+SOCK_KEYS = ["SO_KEEPALIVE", "TCP_NODELAY", "IPV6_V6ONLY", "SO", "so_keepalive", "X_FOO", ""]
+
+
+def cc_socket_options(ki: int, vi: int) -> bool:
+    """
+    pre: 0 <= ki < 7 and 0 <= vi < 9
+    post: _
+    """
+    ki, vi = pick(ki, 7), pick(vi, 9)
+    inner = {"address_family": "AF_INET", "options": {SOCK_KEYS[ki]: SOCK_VALS[vi]}}
+    got = _accepts(mk(stix2.v21.SocketExt, inner))
+    V.reached()
+    # options: keys are socket option names (SO_*, TCP_*, ...), values are integers -- a boolean is not an integer in JSON
+    key_ok = ki < 3
+    val_ok = isinstance(SOCK_VALS[vi], int) and not isinstance(SOCK_VALS[vi], bool)
+    return got == (key_ok and val_ok)
 
 
 def cc_helpers(p1: bool, p2: bool, p3: bool, at_least: bool) -> bool:
